@@ -27,8 +27,13 @@ def get_str_query_single(query):
     is '', other strings are canonicalised as a whole query string"""
     if query is None:
         return None
+    if isinstance(query, (list, tuple)):
+        # a sequence of (key, value) pairs: serialised in order (single values only)
+        if len(query) == 0:
+            return ""
+        return str_query_from_pairs(query)
     if not isinstance(query, str):
-        raise TypeError("this specification covers None and str")
+        raise TypeError("this specification covers None, str and sequences of pairs")
     if query == "":
         return ""
     return QUERY_QUOTER(query)
